@@ -30,7 +30,7 @@ def _scratch():
 def solve(assertions: List, *, timeout_ms=20000, first_ms=None, model_vars: Optional[List] = None,
           external=True) -> Tuple[str, Optional[Dict]]:
     """Return (status, model) where model maps str(var) -> python value for model_vars (if sat)."""
-    first = first_ms if first_ms is not None else min(timeout_ms, 4000 if external and CVC5 else timeout_ms)
+    first = first_ms if first_ms is not None else min(timeout_ms, 3000 if external and CVC5 else timeout_ms)
     s = z3.Solver()
     s.set("timeout", int(first))
     for a in assertions:
@@ -56,12 +56,20 @@ def solve(assertions: List, *, timeout_ms=20000, first_ms=None, model_vars: Opti
 
 
 def _external(s: z3.Solver, assertions, budget_ms, model_vars):
-    text = s.to_smt2()
+    # NB: a solver that has already run check() prints its *preprocessed* (bit-blasted, megabytes) state;
+    # always print from a fresh solver object.
+    fresh = z3.Solver()
+    for a in assertions:
+        fresh.add(a)
+    text = fresh.to_smt2()
     # to_smt2 ends with (check-sat); add get-value for the variables we need
     names = [str(v) for v in model_vars]
     if names:
         text += "(get-value (" + " ".join(_quote(n) for n in names) + "))\n"
-    text = "(set-option :produce-models true)\n" + text
+    for a, b in (("bvsdiv_i", "bvsdiv"), ("bvudiv_i", "bvudiv"), ("bvsrem_i", "bvsrem"), ("bvurem_i", "bvurem"),
+                 ("bvsmod_i", "bvsmod")):
+        text = text.replace(a, b)
+    text = "(set-option :produce-models true)\n(set-logic ALL)\n" + text
     d = _scratch()
     fd, path = tempfile.mkstemp(prefix="q-", suffix=".smt2", dir=d)
     with os.fdopen(fd, "w") as f:
@@ -72,12 +80,23 @@ def _external(s: z3.Solver, assertions, budget_ms, model_vars):
         if CVC5:
             procs.append(("cvc5", subprocess.Popen([CVC5, "--lang=smt2", f"--tlimit={int(budget_ms)}", path],
                                                    stdout=subprocess.PIPE, stderr=subprocess.PIPE, text=True)))
-        if Z3BIN:
+        z3_started = False
+        if Z3BIN and not CVC5:
+            z3_started = True
             procs.append(("z3bin", subprocess.Popen([Z3BIN, f"-T:{secs}", path],
                                                     stdout=subprocess.PIPE, stderr=subprocess.PIPE, text=True)))
         deadline = time.time() + budget_ms / 1000.0 + 2
         done = {}
-        while procs and time.time() < deadline:
+        while time.time() < deadline:
+            if not procs:
+                if Z3BIN and not z3_started:
+                    # cvc5 gave up early (error/unknown): spend what is left on the z3 binary
+                    z3_started = True
+                    left = max(1, int(deadline - time.time()))
+                    procs.append(("z3bin", subprocess.Popen([Z3BIN, f"-T:{left}", path],
+                                                            stdout=subprocess.PIPE, stderr=subprocess.PIPE, text=True)))
+                else:
+                    break
             for name, p in list(procs):
                 if p.poll() is not None:
                     out = p.stdout.read()
@@ -111,18 +130,24 @@ def _quote(n):
 
 
 def _status(out: str) -> str:
-    if "(error" in out:
-        return "unknown"
+    """First verdict line; an (error before it makes the answer untrustworthy (=> unknown).  An error *after*
+    the verdict (e.g. get-value after unsat) is harmless."""
     for line in out.splitlines():
         line = line.strip()
-        if line in ("sat", "unsat", "unknown", "timeout"):
-            return line if line in ("sat", "unsat") else "unknown"
+        if line.startswith("(error"):
+            return "unknown"
+        if line in ("sat", "unsat"):
+            return line
+        if line in ("unknown", "timeout"):
+            return "unknown"
     return "unknown"
 
 
 def _val(v):
     if z3.is_bv_value(v):
         n = v.as_long()
+        if v.size() < 64:   # narrow variables are device inputs: unsigned
+            return n
         return n - (1 << v.size()) if n >> (v.size() - 1) else n
     if z3.is_fp_value(v):
         if v.isNaN():
@@ -203,6 +228,8 @@ def _decode(sx, var):
         if sx in ("true", "false"):
             return sx == "true"
         n, w = _bits(sx)
+        if w < 64:
+            return n
         return n - (1 << w) if n >> (w - 1) else n
     if sx[0] == "fp":
         s, _ = _bits(sx[1])
@@ -226,6 +253,8 @@ def _decode(sx, var):
             return float("nan")
         if kind.startswith("bv"):
             n, w = int(kind[2:]), int(sx[2])
+            if w < 64:
+                return n
             return n - (1 << w) if n >> (w - 1) else n
     raise ValueError(str(sx))
 
